@@ -57,6 +57,8 @@ def generate(rng, tier, index):
         location = "nowhere"
     w_rpc = common.pick_rpc(rng, n)
     r_rpc = common.pick_rpc(rng, n) if rng.random() < 0.8 else w_rpc
+    if rng.random() < 0.15:
+        r_rpc = None          # the consuming calls do not name a request size: the default applies
     spell = "same"
     if rng.random() < 0.25 and wp["backend"] in ("local", "file"):
         spell = rng.choice(["file", "slash", "relative"] if wp["backend"] == "local"
@@ -100,6 +102,7 @@ def execute(plan):
     kind = backend_kind(w.backend)
     site = f"{producer}:{location}:{kind}"
     r, wr = plan["r"], plan["w"]
+    r_eff = 1024 if r is None else r
     n0 = prod.truth[prod.images[0]].shape[0]
     keys.append(f"{producer}|{location}|{w.backend}|{'w=r' if wr == r else 'w!=r'}|"
                 f"{'restart' if plan['restart'] else 'same-process'}|{prod.level}")
@@ -247,9 +250,9 @@ def execute(plan):
                 except Exception:  # noqa: BLE001
                     continue
                 got = None if pc is None else pc.get("rows")
-                if got != min(r, n):
+                if got != min(r_eff, n):
                     violations.append(Violation(ID, "cached-chunksize-ignores-caller", site, {
-                        "advertised": pc, "want_rows": min(r, n), "r": r, "w": wr}))
+                        "advertised": pc, "want_rows": min(r_eff, n), "r": r, "w": wr}))
                     break
             if spelling is None and w.backend in world.RECORDED and producer != "none":
                 cached_imgs = have_user | have_adj
